@@ -16,7 +16,7 @@
     under ANY schedule and whatever other requests (not creating/updating/deleting providers) are in
     flight, at most one answers 2xx.
 -/
-import Placement.Lemmas.SchedRp
+import Placement.Lemmas.SchedRp2
 import Placement.Lemmas.WfExample
 
 namespace Placement.Props.C05
@@ -167,6 +167,90 @@ theorem at_most_one_success_same_generation (cfg : Config) (ops : List (Op R))
   cases hq
   exact carries_commits cfg hc _ p (fun p' h => by show p' = (rpIdOf db u).getD 0; rw [h]; rfl)
 
+/-! ## Stale generation: 409 `placement.concurrent_update`, nothing changed -/
+
+/-- **stale_generation_is_409_concurrent_update** (every schedule).  Split the schedule as
+`pre ++ rest`.  If after `pre` the provider `u` (internal id `p`) is beyond generation `g` and request
+`i`, which carries `(u, g)`, has not run a transaction yet, then whatever happens in `rest`:
+request `i`, when it answers, answers 409 with code `placement.concurrent_update`, and none of its
+scheduling steps changes the state. -/
+theorem stale_generation_is_409_concurrent_update (cfg : Config) (ops : List (Op R))
+    (hops : ∀ op ∈ ops, isProviderOp op = false) (db : DB R) (hU : Uniq db) (pre rest : List Nat) (u g p : Nat)
+    {i : Nat} {op : Op R} (hi : ops[i]? = some op) (hc : carries u g op = true) (hnot : i ∉ pre)
+    (hp : rpIdOf db u = some p) (hpast : RpPast p g (Prog.runSched pre db (ops.map (prog cfg))).1) :
+    (∀ a, (Prog.runSched (pre ++ rest) db (ops.map (prog cfg))).2[i]? = some (.done a) → a = r409 .concurrentUpdate) ∧
+    (∀ r1 r2, rest = r1 ++ i :: r2 →
+      (Prog.runSched (pre ++ r1 ++ [i]) db (ops.map (prog cfg))).1 =
+      (Prog.runSched (pre ++ r1) db (ops.map (prog cfg))).1) := by
+  have hpool := pool_evo cfg ops hops
+  have hW : ∀ s s' : DB R, QEvo (fun _ => True) s s' → WRp u (some p) s → WRp u (some p) s' :=
+    fun s s' q h => h.evo q
+  have hpre := hpool.runSched (WRp u (some p)) hW pre db _ ⟨ids_of_uniq hU, hp⟩
+  have hD : ∀ s s' : DB R, QEvo (fun _ => True) s s' → DPast u p g s → DPast u p g s' := fun s s' q h => h.evo q
+  have hin : ∀ q, (Prog.runSched pre db (ops.map (prog cfg))).2[i]? = some q → Inert (DPast (R := R) u p g) Is409 q := by
+    intro q hq
+    rw [runSched_untouched i pre db _ hnot, List.getElem?_map, hi] at hq
+    cases hq
+    cases op <;> simp only [carries, Bool.and_eq_true, beq_iff_eq, decide_eq_true_eq, Bool.false_eq_true] at hc
+    · obtain ⟨rfl, rfl⟩ := hc; exact pInvSet_inert _ _ _ _ p
+    · obtain ⟨rfl, rfl⟩ := hc; exact pInvUpdate_inert _ _ _ _ p
+    · obtain ⟨⟨rfl, rfl⟩, hmv⟩ := hc; exact pAggsSet_inert _ _ _ hmv _ p
+  obtain ⟨h1, h2⟩ := inert_runSched hD i rest _ _ hpre.1 ⟨hpre.2, hpast⟩ hin
+  constructor
+  · intro a ha
+    rw [runSched_append] at ha
+    exact h1 a ha
+  · intro r1 r2 hr
+    have := h2 r1 r2 hr
+    rw [List.append_assoc, runSched_append, runSched_append pre r1]
+    exact this
+
+/-- **stale_write_is_rejected** (one transaction).  The write transaction of a guarded request that
+runs when the provider no longer has the generation carried: state unchanged, answer not 2xx
+(409 `placement.concurrent_update` unless the write is refused for another reason first: unknown
+class 400, inventory in use 409). -/
+theorem stale_write_is_rejected (p g : Nat) (s : DB R) (hst : ¬ RpAt p g s) :
+    (∀ invs, (tInvSetW p g invs s).1 = s ∧ ∃ e, (tInvSetW p g invs s).2 = .done (errInvSet e)) ∧
+    (∀ inv, (tInvUpdateW p g inv s).1 = s ∧ ∃ e, (tInvUpdateW p g inv s).2 = .done (errInvUpdate e)) ∧
+    (∀ aggs, (tAggsSetW p g aggs true s).1 = s ∧ ∃ r, (tAggsSetW p g aggs true s).2 = .done r ∧ ¬ okR r) :=
+  guarded_write_stale p g s hst
+
+/-- the compare-and-swap failure itself is mapped to 409 `placement.concurrent_update` -/
+example : errInvSet .rpConcurrentUpdate = r409 .concurrentUpdate ∧ errInvUpdate .rpConcurrentUpdate = r409 .concurrentUpdate ∧
+    errInvAdd .rpConcurrentUpdate = r409 .concurrentUpdate ∧ errInvDelete .rpConcurrentUpdate = r409 .concurrentUpdate ∧
+    errInvDeleteAll .rpConcurrentUpdate = r409 .concurrentUpdate := by decide
+
+/-! ## Requests that derive the generation themselves -/
+
+/-- **derived_generation_no_overwrite** (every schedule).  POST inventory, DELETE inventory, DELETE
+inventories (>= 1.5) and DELETE traits read the provider and use ITS generation for the write.  If
+such a request answers 2xx, it ran exactly two transactions, on the states `s1` (read) and `s2`
+(write) of the run, and the provider row read in `s1` still had the same generation in `s2`
+(or, for DELETE traits, the provider had no traits in `s2` and nothing was written): since every
+committed change of a provider raises its generation (C10) and generations never decrease
+(`generation_monotone_step`), no change of that provider was committed between the two. -/
+theorem derived_generation_no_overwrite (cfg : Config) (ops : List (Op R))
+    (hops : ∀ op ∈ ops, isProviderOp op = false) (db : DB R) (hU : Uniq db) (sched : List Nat) (u : Nat)
+    {i : Nat} {op : Op R} (hi : ops[i]? = some op) (hd : derives u op = true) {a : Resp}
+    (hia : (Prog.runSched sched db (ops.map (prog cfg))).2[i]? = some (.done a)) (ha : a.ok = true) :
+    ∃ s1 s2 rp, obsOf i sched db (ops.map (prog cfg)) = [s1, s2] ∧ s1.rpByUuid u = some rp ∧
+      EvoG (fun _ => True) s1.gcore s2.gcore ∧
+      (RpAt rp.id rp.gen s2 ∨ traitsUnchanged s2 rp.id [] = true) := by
+  have hpool := pool_evo cfg ops hops
+  obtain ⟨l1, f1, hprog, hshape, hrow⟩ := derives_two_stage cfg hd
+  have hobs := observe (Q := QEvo (R := R) (fun _ => True)) (T := QEvo (fun _ => True))
+    (fun s => QEvo.refl _ s) (fun a b c t q hI => (t hI).trans (q (t hI).ids)) i sched db db _ (prog cfg op) hpool
+    (QEvo.refl _ db) (by rw [List.getElem?_map, hi]; rfl)
+  obtain ⟨hfeed, hchain⟩ := hobs
+  rw [hprog] at hfeed hchain
+  have hfa : feed (.txn l1 f1) (obsOf i sched db (ops.map (prog cfg))) = .done a := by
+    have := hia.symm.trans hfeed
+    exact (Option.some.inj this).symm
+  obtain ⟨s1, s2, l2, f2, hobs2, ht0, hq, ht, hfin⟩ := chain_two_stage (ok := okR) hshape hchain hfa ha
+  obtain ⟨rp, hrp, hw⟩ := hrow s1 l2 f2 hq
+  refine ⟨s1, s2, rp, hobs2, hrp, ht (ht0 (ids_of_uniq hU)).ids, ?_⟩
+  exact (hw s2 a hfin ha).imp id (·.2)
+
 /-! ## The hypotheses are satisfiable: three PUT inventories with the same generation, one PUT
 aggregates and an allocation write in flight on `Wf.exDb` (provider uuid 101: id 2, generation 3) -/
 
@@ -193,6 +277,31 @@ order 1, 0, 2, 3, allocation write last): exactly the answers 409, 200, 409, 409
 example : ((Prog.runSched [0, 1, 2, 3, 1, 0, 2, 3] exDb (exPool.map (prog exCfg))).2.take 4).map Prog.result? =
     [some (r409 .concurrentUpdate), some r200, some (r409 .concurrentUpdate), some (r409 .concurrentUpdate)] := by
   decide
+
+/-- hypotheses of `stale_generation_is_409_concurrent_update`: after request 1 has run completely
+(`pre = [1, 1]`) provider 101 (id 2) is beyond generation 3 and request 0 has not started -/
+example : 0 ∉ [1, 1] ∧ rpIdOf exDb 101 = some 2 ∧
+    RpPast 2 3 (Prog.runSched [1, 1] exDb (exPool.map (prog exCfg))).1 := by
+  refine ⟨by decide, by decide, ?_⟩
+  unfold RpPast; decide
+
+/-- ... and indeed -/
+example : ((Prog.runSched ([1, 1] ++ [0, 2, 2, 3]) exDb (exPool.map (prog exCfg))).2.take 4).map Prog.result? =
+    [some (r409 .concurrentUpdate), some r200, some (r409 .concurrentUpdate), some (r409 .concurrentUpdate)] := by
+  decide
+
+def exInvNew : InvSpec Nat :=
+  { rcName := 2, total := 4, reserved := 0, minUnit := 1, maxUnit := 4, stepSize := 1, ratio := 1 }
+
+/-- deriving requests on provider 101: POST inventory of class 2, DELETE traits, with a PUT aggregates -/
+def exPoolD : List (Op Nat) := [.invAdd 39 101 exInvNew, .rpTraitsDelete 101, .aggsSet 39 101 (some 3) [900]]
+
+example : derives 101 exPoolD[0] = true ∧ derives 101 exPoolD[1] = true := by decide
+
+/-- request 0 reads, request 2 commits (generation 4), request 0's write is refused; request 1 then
+reads generation 4 and succeeds -/
+example : (Prog.runSched [0, 2, 2, 0, 1, 1] exDb (exPoolD.map (prog exCfg))).2.map Prog.result? =
+    [some (r409 .concurrentUpdate), some r204, some r200] := by decide
 
 end examples
 
